@@ -375,6 +375,11 @@ func GetHTTPRequest(ctx *core.Context, r *http.Request) (map[string]interface{},
 				return nil, err
 			}
 
+			// A JSON text may begin with white space.
+			if text := bytes.TrimLeft(js, " \t\r\n"); 0 < len(text) && text[0] == '{' {
+				js = text
+			}
+
 			if len(js) == 0 {
 				// No body, so nothing (more) to parse.
 			} else if js[0] == '{' {
